@@ -11,11 +11,26 @@ import (
 )
 
 const (
-	maxInput    = 60  // bytes, including the terminating newline
-	maxOpsA     = 60  // ops per part-A history
-	maxNextA    = 400 // hard cap on Next calls per history (scan + drive + drain)
-	maxScanNext = 200 // hard cap on Next calls of one fresh scan
+	maxInput = 60 // bytes, including the terminating newline
+	maxOpsA  = 60 // ops per part-A history
 )
+
+// Caps on Next calls per history and per fresh scan. Long histories (1 part-A run in 64: inputs of
+// 600..1400 lexemes and bursts of 256 Next calls, so that the replay cache holds thousands of
+// entries when snapshots are taken, rolled back and committed) raise them for their own duration.
+var (
+	maxInputLen = maxInput
+	maxNextA    = 400
+	maxScanNext = 200
+)
+
+func setLong(long bool) {
+	if long {
+		maxInputLen, maxNextA, maxScanNext = 16000, 12000, 6000
+	} else {
+		maxInputLen, maxNextA, maxScanNext = maxInput, 400, 200
+	}
+}
 
 // scanEntry is everything observable about one lexer position.
 type scanEntry struct {
@@ -115,10 +130,13 @@ func genLexeme(tp *tape.Tape) string {
 
 func genInput(tp *tape.Tape) string {
 	n := tp.Range(0, 12)
+	if maxInputLen > maxInput {
+		n = tp.Range(600, 1400)
+	}
 	b := make([]byte, 0, maxInput)
 	for i := 0; i < n; i++ {
 		lx := genLexeme(tp)
-		if len(b)+len(lx) > maxInput-1 {
+		if len(b)+len(lx) > maxInputLen-1 {
 			break
 		}
 		b = append(b, lx...)
@@ -130,7 +148,7 @@ func genInput(tp *tape.Tape) string {
 // properties: the input must not end inside a string or comment, must end in
 // a newline, must not contain NUL and must be short.
 func safeInput(s string) bool {
-	if len(s) == 0 || len(s) > maxInput || s[len(s)-1] != '\n' {
+	if len(s) == 0 || len(s) > maxInputLen || s[len(s)-1] != '\n' {
 		return false
 	}
 	const (
@@ -258,11 +276,24 @@ func freshScan(input string, h *History) (m scanModel, discard string, viol *cor
 // ---- part A ----
 
 func runA(tp *tape.Tape, r *core.Result) {
+	long := tp.Draw(64) == 63
+	setLong(long)
+	defer setLong(false)
 	input := genInput(tp)
 	nOps := tp.Range(0, maxOpsA)
 	ops := make([]byte, nOps)
 	depth := 0
+	burst := 0
+	if long {
+		burst = tp.Range(2, 6) // that many 'B' ops (256 Next calls each) spread over the history
+		r.Inc("F11.long_history", 1)
+	}
 	for i := range ops {
+		if burst > 0 && tp.Draw(4) == 0 {
+			ops[i] = 'B'
+			burst--
+			continue
+		}
 		d := tp.Draw(20)
 		op := byte('N')
 		switch {
@@ -372,6 +403,10 @@ func runA(tp *tape.Tape, r *core.Result) {
 			switch op {
 			case 'N':
 				doNext("A.token-after-next")
+			case 'B':
+				for k := 0; k < 256 && viol == nil && nextCalls < maxNextA; k++ {
+					doNext("A.token-after-next")
+				}
 			case 'S':
 				tl.Snapshot()
 				stack = append(stack, cur)
